@@ -235,7 +235,7 @@ def main(argv):
                 if o.path:
                     for step in o.path:
                         print('       via %s' % step)
-            p = report.write_replay(prop, new)
+            p = report.write_replay(prop, new, scratch=a.no_evidence)
             print('VIOLATION property=%s replay=%s' % (prop, p))
             return 1
         return 0
